@@ -526,7 +526,14 @@ class Process(object):
 
     def children(self, recursive=False):
         """Return a list of children pids."""
-        return [child.pid for child in get_children(self._worker, recursive)]
+        children = get_children(self._worker, recursive)
+        # remember them: once this process has died they are not its children
+        # anymore, but a caller may still have to signal them
+        known = getattr(self, '_known_children', None)
+        if known is None:
+            known = self._known_children = {}
+        known.update((child.pid, child) for child in children)
+        return [child.pid for child in children]
 
     def is_child(self, pid):
         """Return True is the given *pid* is a child of that process."""
@@ -538,12 +545,19 @@ class Process(object):
     @debuglog
     def send_signal_child(self, pid, signum):
         """Send signal *signum* to child *pid*."""
-        children = dict((child.pid, child)
-                        for child in get_children(self._worker))
         try:
-            children[pid].send_signal(signum)
-        except KeyError:
+            children = dict((child.pid, child)
+                            for child in get_children(self._worker))
+        except NoSuchProcess:
+            children = {}
+        child = children.get(pid)
+        if child is None:
+            # a child listed by the last children() call, re-parented
+            # meanwhile because this process died
+            child = getattr(self, '_known_children', {}).pop(pid, None)
+        if child is None:
             raise NoSuchProcess(pid)
+        child.send_signal(signum)
 
     @debuglog
     def send_signal_children(self, signum, recursive=False):
